@@ -19,12 +19,19 @@ import json, os, re, shutil, subprocess
 import vt
 from vt import Infra
 
-HDR = {"I0": "h0.h", "I2": "h2.h", "J1": "g1.h", "IL": "hl.h"}
-HDR_UNITS = {"h0.h": ["P"], "h2.h": ["B", "C", "P"], "g1.h": ["SN", "I0", "P"], "hl.h": ["P", "L50", "P", "K2", "P"]}
+HDR = {"I0": "h0.h", "I2": "h2.h", "J1": "g1.h", "IL": "hl.h", "IM": "mac.h"}
+HDR_UNITS = {"h0.h": ["P"], "h2.h": ["B", "C", "P"], "g1.h": ["SN", "I0", "P"], "hl.h": ["P", "L50", "P", "K2", "P"],
+             "mac.h": ["B", "DO"]}
+MKINDS = ("MB", "MC", "MK", "MT")      # one statement over several lines, a probe (call with a magic argument) on each
 EOL = {"LF": "\n", "CRLF": "\r\n", "CR": "\r"}
-PROLOGUE = ["X", "D", "X"]
+PROLOGUE = ["X", "D", "IM", "X"]
 EPILOGUE = ["X"]
 DEFINE = '#define M(t) printf("%s %d %s\\n", t, __LINE__, __FILE__)'
+FIRST = "int printf(const char *, ...); static int qf(int x) { return x; } static int qg(int x, int y) { return x + y; }"
+
+
+def magic(u, j):
+    return 77000000 + u * 10 + j
 
 
 def probe(pid, broken=False):
@@ -38,7 +45,8 @@ def unit_lines(k, tag, u, pos, broken=None):
     v = "v_%s_%d" % (re.sub(r"\W", "_", tag), u)
     b = broken == pid
     if k == "X":
-        return [{"first": "int printf(const char *, ...);", "mid": "int main(void) {", "last": "return 0; }"}[pos]]
+        return [{"first": FIRST, "mid": "int main(void) { int r = 0;", "last": "return r & 0; }"}[pos]]
+    q = ["qf(%d)" % magic(u, j) for j in range(3)]
     return {
         "P": [probe(pid, b)], "B": [""], "C": ["// c"], "CS": ["// c \\", probe(pid)],
         "K2": ["/* c", "c */"], "K3": ["/* c", "c", "c */"], "KP": ["/* c", "c */ " + probe(pid, b)],
@@ -46,21 +54,39 @@ def unit_lines(k, tag, u, pos, broken=None):
         "SP": ["{ int %s = \\" % v, "0; } " + probe(pid)],
         "D": [DEFINE], "U": ['M("%s");' % pid], "V": ["M(", '"%s"' % pid, ");"],
         "L": ["#line 100"], "F": ['#line 200 "foo.c"'], "L50": ["#line 50"],
+        "DO": ["#define OUT(t) M(t)"], "W": ['OUT("%s");' % pid],
+        "MB": ["r += %s +" % q[0], "%s;" % q[1]], "MC": ["r += qg(%s," % q[0], "%s);" % q[1]],
+        "MK": ["r += (%s," % q[0], "%s);" % q[1]], "MT": ["r += %s ?" % q[0], "%s :" % q[1], "%s;" % q[2]],
     }.get(k) or ['#include "%s"' % HDR[k]]
 
 
-def render(units, tag, eol, final, main=False, broken=None):
+def pad_targets(npad, variant):
+    """byte offsets at which the line terminators of the padding lines start: on and around the 4096-byte
+    boundaries of read_file's chunks (..94 ..95 | ..96 ..97), near ones or 36 KB apart (files > 64 KB)"""
+    spacing = 9 if variant >= 4 else 1
+    delta = [-2, -1, 0, 1]
+    return [4096 * spacing * (j + 1) + delta[(j + variant) % 4] for j in range(npad)]
+
+
+def render(units, tag, eol, final, main=False, broken=None, pad=0, variant=0):
     lines = []
+    e = EOL[eol]
+    off = 0
+    targets = pad_targets(pad, variant)
     for i, k in enumerate(units):
         pos = "first" if i == 0 else ("last" if i == len(units) - 1 else "mid")
-        lines += unit_lines(k, tag, i + 1, pos if main else None, broken)
-    e = EOL[eol]
+        ul = unit_lines(k, tag, i + 1, pos if main else None, broken)
+        if main and pad and len(PROLOGUE) <= i < len(PROLOGUE) + pad:
+            ul = ["//" + "c" * (targets[i - len(PROLOGUE)] - off - 2)]      # its terminator starts exactly at the target
+        lines += ul
+        off += sum(len(x) + len(e) for x in ul)
     return e.join(lines) + (e if final else ""), len(lines)
 
 
 def materialise(b, d, broken=None):
-    units = PROLOGUE + b["body"] + EPILOGUE
-    txt, n = render(units, "m", b["eol"], b["final"], main=True, broken=broken)
+    pad = b.get("pad", 0)
+    units = PROLOGUE + ["C"] * pad + b["body"] + EPILOGUE
+    txt, n = render(units, "m", b["eol"], b["final"], main=True, broken=broken, pad=pad, variant=b.get("variant", 0))
     if n != b["nphys"]:
         raise Infra("renderer and Lines.tla disagree on the number of physical lines (%d vs %d) for %s" % (n, b["nphys"], b["body"]))
     os.makedirs(d, exist_ok=True)
@@ -106,7 +132,12 @@ def obs_run(cmd, d):
     return out, ""
 
 
-def obs_loc(cmd, d):
+def magic_ids(b):
+    units = PROLOGUE + ["C"] * b.get("pad", 0) + b["body"] + EPILOGUE
+    return {str(magic(u + 1, j)): "m%s%d%s" % (k, u + 1, "abc"[j]) for u, k in enumerate(units) if k in MKINDS for j in range(3)}
+
+
+def obs_loc(cmd, d, mg=None):
     p = rl(cmd + ["-S", "-o", "-", "main.c"], d)
     if p.returncode:
         return None, p.stderr[-300:]
@@ -124,6 +155,9 @@ def obs_loc(cmd, d):
         m = re.match(r"#\s+([A-Za-z0-9_.]+)$", s)
         if m and cur and re.search(r"(P|KP|SP)\d+$", m.group(1)):
             out.append((m.group(1), cur[1], norm(files.get(cur[0], "?"))))
+        m = re.search(r"\$(77\d{6})\b", s)          # the magic argument of a probe call inside a multi-line statement
+        if m and cur and mg and m.group(1) in mg:
+            out.append((mg[m.group(1)], cur[1], norm(files.get(cur[0], "?"))))
     return out, ""
 
 
@@ -173,7 +207,9 @@ def classify(b, exp, got):
 def expected(b, obs):
     exp = [(e["id"], e["line"], e["file"], e["k"], e["g"]) for e in b["exp"]]
     if obs == "loc":
-        exp = [e for e in exp if e[3] in ("P", "KP", "SP") and not has_line_directive(b, real_file(e[0]))]
+        exp = [e for e in exp if e[3] in ("P", "KP", "SP") + MKINDS and not has_line_directive(b, real_file(e[0]))]
+    else:
+        exp = [e for e in exp if e[3] not in MKINDS]
     return exp
 
 
@@ -190,16 +226,18 @@ def check_one(tree, root, i, b, full, seed, oracle=False):
             cc2 = cc + ["-g"]
         else:
             cc2 = cc
-        got, err = fn(cc2, d)
+        got, err = fn(cc2, d, magic_ids(b)) if name == "loc" else fn(cc2, d)
         exp = expected(b, name)
+        if name == "loc":       # the order in which operands are evaluated (hence emitted) is unspecified: compare per probe
+            exp = sorted(exp, key=lambda e: e[0])
         if got is not None and name == "loc":
-            got = [g for g in got if g[0] in {e[0] for e in exp}]
+            got = sorted((g for g in got if g[0] in {e[0] for e in exp}), key=lambda g: g[0])
         for cls, det in classify(b, exp, got):
             tie = None
             if not oracle:
-                gg, _ = fn(gcc + (["-g"] if name == "loc" else []), d)
+                gg, _ = fn(gcc + ["-g"], d, magic_ids(b)) if name == "loc" else fn(gcc, d)
                 if gg is not None and name == "loc":
-                    gg = [g for g in gg if g[0] in {e[0] for e in exp}]
+                    gg = sorted((g for g in gg if g[0] in {e[0] for e in exp}), key=lambda g: g[0])
                 tie = not classify(b, exp, gg)
             res.append((name, cls, det + " " + err, tie))
     if full and not has_line_directive(b, "main.c"):
@@ -228,13 +266,14 @@ def replay_lines(ctx, tree, behs, full_every=1):
 
     for i, res in vt.pmap(one, list(enumerate(behs))):
         b = behs[i]
-        ctx.note_case("lines:%s:%s:%s" % (",".join(b["body"]), b["eol"], b["final"]), nontrivial=len(b["exp"]) > 0)
+        ctx.note_case("lines:%s:%s:%s:%s:%s" % (",".join(b["body"]), b["eol"], b["final"], b.get("pad", 0), b.get("variant", 0)), nontrivial=len(b["exp"]) > 0)
         for obs, cls, det, tie in res:
             if tie is False:
                 ctx.oracle_disagreements += 1
                 continue
-            ctx.report("lines:%s:%s" % (obs, cls), "file of units %s, line ending %s%s: %s" % (
-                b["body"], b["eol"], "" if b["final"] else ", last line unterminated", det),
+            ctx.report("lines:%s:%s" % (obs, cls), "file of units %s%s, line ending %s%s: %s" % (
+                b["body"], " behind %d padding lines (variant %d)" % (b["pad"], b.get("variant", 0)) if b.get("pad") else "",
+                b["eol"], "" if b["final"] else ", last line unterminated", det),
                 case=dict(kind="lines", beh=b, obs=obs, full=True))
     ctx.cov["traces_validated_against_impl"] += len(behs)
 
@@ -245,9 +284,14 @@ def run(ctx):
     tree = ctx.build()
     ctx.phase("build done")
     out = os.path.join(ctx.scratch, "lines.ndjson")
-    with concurrent.futures.ThreadPoolExecutor(4) as pool:
-        mc = pool.submit(ctx.tlc_expect_ok, "lines", "Lines", ctx.cfg("lines", "Lines_mc.cfg", MaxLen=3 if q else 4),
-                         "splice/line-count/#line design departs from Level A beyond the two recorded deviations", workers=4 if q else 8, timeout=1500)
+    out2 = os.path.join(ctx.scratch, "long.ndjson")
+    what = "splice/line-count/#line design departs from Level A beyond the two recorded deviations"
+    with concurrent.futures.ThreadPoolExecutor(5) as pool:
+        if q:
+            mcs = [pool.submit(ctx.tlc_expect_ok, "lines", "Lines", ctx.cfg("lines", "Lines_mc.cfg", MaxLen=3), what, workers=4, timeout=1500)]
+        else:       # 24^4 x 6 scenarios exceed TLC's 10^6 limit for an enumerated set: one run per line ending
+            mcs = [pool.submit(ctx.tlc_expect_ok, "lines", "Lines", ctx.cfg("lines", "Lines_mc.cfg", MaxLen=4, Eols='{"%s"}' % e), what,
+                               workers=5, timeout=3000, heap="6g") for e in ("LF", "CRLF", "CR")]
         c1 = pool.submit(ctx.tlc, "lines", "Lines", ctx.cfg("lines", "Lines_mc.cfg", MaxLen=2, LineOff=2), workers=1, count=False)
         c3 = pool.submit(ctx.tlc, "lines", "Lines", ctx.cfg("lines", "Lines_mc.cfg", MaxLen=2, RecordedLineDev=0), workers=1, count=False)
         rep = pool.submit(ctx.tlc_expect_ok, "lines", "Lines", ctx.cfg("lines", "Lines_repaired.cfg", MaxLen=2),
@@ -256,8 +300,11 @@ def run(ctx):
         c2txt = open(c2cfg).read().replace("INVARIANTS SameButRecorded SameProbes", "INVARIANTS SameAll")
         open(c2cfg, "w").write(c2txt)
         c2 = pool.submit(ctx.tlc, "lines", "Lines", c2cfg, workers=1, count=False)
-        gen = pool.submit(ctx.tlc, "lines", "Lines", ctx.cfg("lines", "Lines_gen.cfg", MaxLen=3, Seed=ctx.seed, Stride=37 if q else 3),
+        gen = pool.submit(ctx.tlc, "lines", "Lines", ctx.cfg("lines", "Lines_gen.cfg", MaxLen=3, Seed=ctx.seed, Stride=73 if q else 5),
                           env=dict(OUT=out), workers=3 if q else 6, timeout=1500)
+        # long files: the same units behind 8 padding lines whose ends fall on and around the 4096-byte read boundaries
+        gen2 = pool.submit(ctx.tlc, "lines", "Lines", ctx.cfg("lines", "Lines_gen.cfg", MaxLen=2, Pad=8, Seed=ctx.seed, Stride=19 if q else 2),
+                           env=dict(OUT=out2), workers=2, timeout=1500)
         g = gen.result()
         if not g.ok:
             ctx.report("tlc:Lines:gen:%s" % g.violated, "Lines.tla generation run violated %s" % g.violated,
@@ -272,7 +319,22 @@ def run(ctx):
                         expected_probes=b["exp"]))
         replay_lines(ctx, tree, behs, full_every=3 if q else 2)
         ctx.phase("replay done")
-        mc.result()
+        g2 = gen2.result()
+        if not g2.ok:
+            ctx.report("tlc:Lines:gen-long:%s" % g2.violated, "Lines.tla (Pad = 8) violated %s" % g2.violated,
+                       case=dict(kind="tlcout", out=g2.trace_text()[:3000]))
+        longs = vt.read_ndjson(out2)
+        if len(longs) < 100:
+            raise Infra("Lines generator wrote only %d long-file scenarios" % len(longs))
+        longs.sort(key=lambda b: json.dumps(b, sort_keys=True))
+        for i, b in enumerate(longs):
+            b["variant"] = (i + ctx.seed) % 8        # which boundary each padding line hits; 4..7: lines 36 KB apart (file > 64 KB)
+        replay_lines(ctx, tree, longs, full_every=4 if q else 2)
+        ctx.sample(dict(kind="long file", body=longs[0]["body"], line_ending=longs[0]["eol"],
+                        padding_line_ends_at=pad_targets(8, longs[0]["variant"])))
+        ctx.phase("long files done")
+        for mc in mcs:
+            mc.result()
         rep.result()
         if c1.result().ok:
             raise Infra("sensitivity control failed: TLC accepts a #line delta that is off by two")
@@ -284,8 +346,8 @@ def run(ctx):
                         "a lone CR is a line terminator (chibicc's documented choice; gcc differs, so CR files have no tie-break oracle)",
                         "diagnostics and .loc records are judged only in files without #line"]
     return ctx.finish(
-        rule="case = one file (prologue + <=3 units over 19 kinds + epilogue) x line ending x terminated/unterminated, with its four headers; every probe in it is compared on up to four observables (-E, compiled program, diagnostic prefix, .loc); non-trivial = at least one probe; distinct = distinct (unit sequence, line ending, termination)",
-        exhaustive=not q, extra=dict(scenarios_replayed=len(behs)))
+        rule="case = one file (prologue + <=3 units over 24 kinds + epilogue, or <=2 units behind 8 padding lines ending at the 4096-byte read boundaries) x line ending x terminated/unterminated, with its four headers; every probe in it is compared on up to four observables (-E, compiled program, diagnostic prefix, .loc); non-trivial = at least one probe; distinct = distinct (unit sequence, line ending, termination)",
+        exhaustive=not q, extra=dict(scenarios_replayed=len(behs), long_file_scenarios_replayed=len(longs)))
 
 
 def replay(ctx, path):
